@@ -139,21 +139,25 @@ type run struct {
 	rec  *recorder
 	tx   []fs_db.Tx
 	ctx  context.Context
-	lens map[int]int
+	lenArr [1024]int
 }
 
+// per-write content lengths (an array, not a map: the runtime's map code is race-instrumented even
+// under //go:norace, and this is harness state)
+//
 //go:norace
+//go:noinline
 func (r *run) setLen(id, n int) {
-	if r.lens == nil {
-		r.lens = map[int]int{}
+	if id >= 0 && id < len(r.lenArr) {
+		r.lenArr[id] = n + 1
 	}
-	r.lens[id] = n
 }
 
 //go:norace
+//go:noinline
 func (r *run) lenOf(id int) int {
-	if n, ok := r.lens[id]; ok {
-		return n
+	if id >= 0 && id < len(r.lenArr) && r.lenArr[id] > 0 {
+		return r.lenArr[id] - 1
 	}
 	return valLen
 }
